@@ -1,6 +1,7 @@
 package main
 
 import (
+	"go/token"
 	"fmt"
 	"go/ast"
 	"go/types"
@@ -254,5 +255,145 @@ func checkNoSpaceInsideWord(p *Prog, r *Result, rule string) {
 		}
 		r.Check(ok, rule, key, parts.Pos(), "wordParts stores p.wantSpace = spaceNotRequired before printing such a part when it is not the first",
 			fmt.Sprintf("the clause of wordPart for %s writes a space when p.wantSpace asks for one, and wordParts does not clear that request for a part that is not the first of its word: a space is printed in the middle of the word, which becomes two arguments", tn.Name()))
+	}
+}
+
+// R01h: table agreement inside the printer. "( (" must keep its space (since "((" begins an arithmetic command), and
+// the printer decides that with startsWithLparen(stmt). So every command type whose printing can begin with "(" — the
+// first thing its clause of Printer.command writes, on some path, is a constant that starts with '(' — has a case in
+// startsWithLparen. The first write is found on the clause's flow graph: constant arguments of WriteString/WriteByte/
+// spacedString/spacedToken; a call of any other printer method ends the path (what it writes first is its own business).
+func checkLparenStartersListed(p *Prog, r *Result, rule string) {
+	pkg := p.Pkg("syntax")
+	info := pkg.TypesInfo
+	cmdFD := p.FuncDecl("syntax", "Printer.command")
+	lpFD := p.FuncDecl("syntax", "startsWithLparen")
+	printerT := lookupType(pkg, "Printer")
+	if cmdFD == nil || lpFD == nil || printerT == nil {
+		r.Fatalf("anchors Printer.command / startsWithLparen not found")
+		return
+	}
+	listed := map[*types.TypeName]bool{}
+	ast.Inspect(lpFD.Body, func(n ast.Node) bool {
+		if cc, ok := n.(*ast.CaseClause); ok {
+			for _, e := range cc.List {
+				if pt, ok := info.TypeOf(e).(*types.Pointer); ok {
+					if nt := namedOf(pt.Elem()); nt != nil {
+						listed[nt.Obj()] = true
+					}
+				}
+			}
+		}
+		return true
+	})
+	var ts *ast.TypeSwitchStmt
+	ast.Inspect(cmdFD.Body, func(n ast.Node) bool {
+		if t, ok := n.(*ast.TypeSwitchStmt); ok && ts == nil {
+			ts = t
+		}
+		return true
+	})
+	if ts == nil {
+		r.Undecided(rule, "syntax.(Printer).command#type switch", cmdFD.Pos(), "the type switch over the command was not found")
+		return
+	}
+	g := NewFGraph(info, cmdFD.Body, nil)
+	// classify a node: +1 it writes a constant starting with '(', -1 it writes something else / calls on, 0 nothing
+	firstWrite := func(nd ast.Node) int {
+		res := 0
+		if rs, isRange := nd.(*ast.RangeStmt); isRange {
+			nd = rs.X // the loop head stands for the evaluation of the ranged expression, not for the body
+		}
+		inspectNoLit(nd, func(m ast.Node) bool {
+			c, ok := m.(*ast.CallExpr)
+			if !ok || res != 0 {
+				return true
+			}
+			se, ok := ast.Unparen(c.Fun).(*ast.SelectorExpr)
+			if !ok {
+				return true
+			}
+			name := se.Sel.Name
+			isWrite := name == "WriteString" || name == "WriteByte" || name == "WriteRune" || name == "spacedString" || name == "spacedToken" || name == "writeLit"
+			if isWrite && len(c.Args) >= 1 {
+				if tv, has := info.Types[c.Args[0]]; has && tv.Value != nil {
+					s := tv.Value.ExactString()
+					if strings.HasPrefix(s, `"(`) || s == "40" {
+						res = 1
+						return true
+					}
+				}
+				res = -1
+				return true
+			}
+			if callee := calleeOf(info, c); callee != nil {
+				if sig, ok := callee.Type().(*types.Signature); ok && sig.Recv() != nil && namedOf(derefType(sig.Recv().Type())) == printerT {
+					res = -1
+				}
+			}
+			return true
+		})
+		return res
+	}
+	n := 0
+	for _, st := range ts.Body.List {
+		cc := st.(*ast.CaseClause)
+		if len(cc.List) == 0 || len(cc.Body) == 0 {
+			continue
+		}
+		// the graph node at which the clause body starts: the one with the smallest position inside the clause
+		var start *FBlock
+		startIdx := 0
+		var best token.Pos
+		for _, b := range g.Blocks {
+			for i, nd := range b.Nodes {
+				if nd.Pos() >= cc.Body[0].Pos() && nd.End() <= cc.End() && (start == nil || nd.Pos() < best) {
+					start, startIdx, best = b, i, nd.Pos()
+				}
+			}
+		}
+		if start == nil {
+			continue
+		}
+		may := false
+		seen := map[*FBlock]bool{}
+		var walk func(b *FBlock, from int)
+		walk = func(b *FBlock, from int) {
+			for _, nd := range b.Nodes[from:] {
+				if nd.Pos() < cc.Pos() || nd.End() > cc.End() {
+					return
+				}
+				switch firstWrite(nd) {
+				case 1:
+					may = true
+					return
+				case -1:
+					return
+				}
+			}
+			for _, e := range b.Succs {
+				if !seen[e.To] {
+					seen[e.To] = true
+					walk(e.To, 0)
+				}
+			}
+		}
+		walk(start, startIdx)
+		if !may {
+			continue
+		}
+		for _, e := range cc.List {
+			pt, ok := info.TypeOf(e).(*types.Pointer)
+			if !ok || namedOf(pt.Elem()) == nil {
+				continue
+			}
+			tn := namedOf(pt.Elem()).Obj()
+			n++
+			r.Check(listed[tn], rule, fmt.Sprintf("syntax.startsWithLparen#%s, whose printing can begin with \"(\", is listed", tn.Name()), cc.Pos(), "has a case in startsWithLparen",
+				fmt.Sprintf("the clause of Printer.command for %s can write \"(\" first, and startsWithLparen has no case for it: after an opening parenthesis the two are printed as \"((\", which begins an arithmetic command", tn.Name()))
+		}
+	}
+	if n == 0 {
+		r.Bad(rule, "syntax.(Printer).command#no clause starts with (", cmdFD.Pos(), "no command clause was found to begin with \"(\": the rule no longer sees the construct it is about")
 	}
 }
